@@ -388,6 +388,11 @@ func (fx *fexec) builtin(x *ssa.Call, b *ssa.Builtin, args []Val, st *State) Val
 		return Val{Ty: rt}
 	case "print", "println":
 		return Val{Ty: rt}
+	case "Sizeof":
+		// unsafe.Sizeof of an integer-typed operand (after type-parameter substitution)
+		if ii, ok := vc.intInfo(vc.resolve(args[0].Ty)); ok {
+			return Val{Ty: rt, T: vc.fromInt(intLit(int64(ii.w/8)), rt)}
+		}
 	case "ssa:wrapnilchk":
 		fx.panicPoint(st, eq(args[0].T, intLit(0)), "nil", "nil receiver", fx.posOf(x))
 		return args[0]
